@@ -281,7 +281,7 @@ impl InterpDriver {
                 break;
             }
             *budget -= 1;
-            match rng.weighted(&[40, 14, 14, 10, if with_tx { 10 } else { 1 }, 3, 1]) {
+            match rng.weighted(&[40, 14, 14, 10, if with_tx { 10 } else { 1 }, 3, 1, 12, 6]) {
                 0 => {
                     // targeted: k operands then an opcode
                     let op = *rng.pick(enabled);
@@ -385,6 +385,47 @@ impl InterpDriver {
                         out.push(json!(*rng.pick(&[251u64, 252, 253, 254, 255, 186, 80, 98, 137, 138, 177, 178])));
                     } else {
                         out.push(json!(*rng.pick(&[251u64, 252, 253, 254, 255, 186, 80, 98, 137, 138, 103, 104, 177, 178, 99, 100, 76, 77, 78])));
+                    }
+                }
+                7 => {
+                    // opcode chain: enough operands for the first opcode, then 2-4 opcodes in a row (what one leaves is what
+                    // the next one finds): sequences like SPLIT CAT, CAT SIZE, DUP HASH160 EQUALVERIFY
+                    let n_ops = rng.range(2, 4);
+                    let first = *rng.pick(enabled);
+                    for _ in 0..Self::arity(first) + rng.below(3) as usize {
+                        out.push(if rng.chance(1, 2) { Self::num_bit(rng) } else { Self::push_bit(rng) });
+                    }
+                    out.push(json!(first));
+                    for _ in 1..n_ops {
+                        let op = *rng.pick(enabled);
+                        if matches!(op, 149 | 152 | 126 | 141) {
+                            if *growth <= 0 {
+                                continue;
+                            }
+                            *growth -= 1;
+                        }
+                        if rng.chance(1, 3) {
+                            out.push(Self::push_bit(rng));
+                        }
+                        out.push(json!(op));
+                    }
+                }
+                8 => {
+                    // alt stack round trips with something in between: x TOALTSTACK <ops> FROMALTSTACK
+                    let k = rng.range(1, 3);
+                    for _ in 0..k {
+                        out.push(Self::push_bit(rng));
+                        out.push(json!(107));
+                    }
+                    for _ in 0..rng.below(3) {
+                        if rng.chance(1, 2) {
+                            out.push(Self::push_bit(rng));
+                        } else {
+                            out.push(json!(*rng.pick(enabled)));
+                        }
+                    }
+                    for _ in 0..rng.range(0, k + 1) {
+                        out.push(json!(108));
                     }
                 }
                 _ => {
